@@ -573,10 +573,13 @@ pub fn gen(tier: Tier, rng: &mut Rng64, out: &mut Out) {
         let fl = random_flips(rng, k);
         run("C06.pickr", &[b.clone(), fmt_usizes(&vs), fmt_bools(&fl)], out);
     }
-    // --- separate stream: variables outside the variable set. The only claims: the quantifier / pick family
-    //     refuses by panic (`check_flip_bounds`), `restrict` ignores them. (`var_select`, `select`, `var_pick`
-    //     with an index ABOVE `num_vars` do not terminate and are kept out of every stream; `var_pick` with
-    //     index = `num_vars` terminates in its inner `var_select` and then panics.)
+    // --- separate stream: variables outside the variable set. The property requires nothing there (the driver evaluates
+    //     no clause, only model agreement). Kept to inputs on which the library answers deterministically and at once:
+    //     `var_exists` / `var_for_all` check the bound first (any index >= num_vars panics), `restrict` ignores such
+    //     literals, and the pick family gets the index EXACTLY = num_vars, where the inner `var_select` still terminates
+    //     and `check_flip_bounds` then panics — also if the order of `var_exists` / `var_pick` inside pick is changed.
+    //     (`var_select` / `select` / `var_pick` with an index ABOVE num_vars never return and allocate without bound:
+    //     such inputs are in no stream.)
     for _ in 0..(if thorough { 600 } else { 60 }) {
         let n = rng.below(5) as usize;
         let b = fmt_bdd(&random_bdd(rng, n));
@@ -586,7 +589,7 @@ pub fn gen(tier: Tier, rng: &mut Rng64, out: &mut Out) {
         run("C06.vpick", &[b.clone(), n.to_string()], out);
         run("C06.vpickr", &[b.clone(), n.to_string(), s("1")], out);
         let mut vs: Vec<usize> = (0..n).filter(|_| rng.bool()).collect();
-        vs.push(big);
+        vs.push(n);
         shuffle(rng, &mut vs);
         run("C06.pick", &[b.clone(), fmt_usizes(&vs)], out);
         let fl = random_flips(rng, vs.len());
@@ -601,4 +604,20 @@ pub fn gen(tier: Tier, rng: &mut Rng64, out: &mut Out) {
     }
 }
 
-fn main() { harness_main(gen, run) }
+/// Safety net: an address-space cap for the generator process, so that a library change which makes some call
+/// allocate without bound ends this process (reported by the runner) instead of exhausting the machine.
+/// (`setrlimit` of the platform C library, declared here because no `libc` crate is a dependency.)
+fn cap_memory(bytes: u64) {
+    #[repr(C)]
+    struct RLimit { cur: u64, max: u64 }
+    extern "C" { fn setrlimit(resource: i32, rlim: *const RLimit) -> i32; }
+    const RLIMIT_AS: i32 = 9; // Linux
+    let lim = RLimit { cur: bytes, max: bytes };
+    if cfg!(target_os = "linux") { unsafe { setrlimit(RLIMIT_AS, &lim); } }
+}
+
+fn main() {
+    let cap: u64 = std::env::var("VERIF_MEM_CAP_MB").ok().and_then(|s| s.parse().ok()).unwrap_or(6144);
+    cap_memory(cap << 20);
+    harness_main(gen, run)
+}
